@@ -661,3 +661,13 @@ _extend("C20",
     kernels=[("stdioasync", 200, 20000)],
     scope="cmd/esbuild/service.go: runService (sequential reader loop, single writer goroutine on the unbuffered outgoingPackets channel, keepAliveWaitGroup at EOF, sendPings), sendPacket, sendRequest (id allocation + callbacks under the mutex), handleIncomingPacket (responses: lookup+delete; build/transform/format-msgs/... on their own goroutine; resolve/rebuild/watch/serve/cancel/dispose keyed by build key incl. the reader-side refusals), getActiveBuild/createActiveBuild/destroyActiveBuild, disposeWaitGroup, rebuildWaitGroup/withinRebuildCount/didGetCancel, handleBuildRequest (one-shot, context creation, the OnStart cancel helper) modelled at packet level (Impl/StdioAsync.lean); real runService sessions against a scripted host (cmd/esbuild/verif_async_test.go) are replayed as accepted traces",
     assumptions=["stdioasync: what a handler computes is abstracted: it may ask the host any number of times and ends only when all those requests have returned (checked by trace inclusion); fewer than 2^31 service->host requests per session; the harness scheduler (trusted only for completeness) places the invisible steps, the Lean driver checks every step, the packets written and the ending; honest host = responses only as answers (each once) + no build key used twice; scheduling is perturbed by random answer delays, not enumerated"])
+
+# stmtprint (C13): statement-level printing hazards
+_extend("C13",
+    lean_modules=["EsbuildModel.Props.C13Stmt"],
+    theorems=["EsbuildModel.C13Stmt.statement_start_safe", "EsbuildModel.StmtPrint.printE_headOk", "EsbuildModel.StmtPrint.printE_not_letBracket", "EsbuildModel.C13Stmt.forbidden_of_head"],
+    kernels=[("stmtprint", 1500, 60000)],
+    open=["C13Stmt.parse_print_stmt (parsing the printed statement text gives back the statement tree, incl. the if/else association), no_asi_dependence and minified statement gluing: stated in Props/C13Stmt.lean, NOT proved; evidence is the kernel op `round`: the reference parser of Spec/StmtGrammar.lean on the model's tokens and esbuild's real parser on the real printed text both give back the printed tree (27 206 of 27 206 sampled programs), compared on the real lexer's tokens",
+          "StmtPrint: arrow bodies, directives, function / class declarations, switch, try, with, comments, LineLimit and MinifySyntax are not in the model"],
+    scope="internal/js_printer/js_printer.go: printStmt (SExpr, SEmpty, SBlock, SIf, SFor, SForIn, SForOf, SWhile, SDoWhile, SLabel, SReturn, SThrow, SBreak, SContinue, SLocal, SExportDefault with an expression), printIf, wrapToAvoidAmbiguousElse, printBody, printBlock, printForLoopInit, printDecls, printSemicolonAfterStatement, printSemicolonIfNeeded, the top-level loop of Print; in printExpr the markers stmtStart / exportDefaultStart / forOfInitStart on top of PrecPrint.print; options default and MinifyWhitespace — against Spec/StmtGrammar.lean (ASI-free statement grammar with the lookahead restrictions)",
+    assumptions=["stmtprint: tokens and line breaks only (blanks and indentation not modelled); IsSingleLine flags false; atoms: identifier 0 = `let`, 1 = `async`, 2 = EObject{}, 3 = EFunction{}, 4 = EClass{}, 5 = async EFunction{}; needsSemicolon is false on entry of printStmt"])
